@@ -184,7 +184,9 @@ func run(c *mon.Ctx) {
 				packetLevel(c, r, &h, b, hdrEnd)
 			}
 			if c.Class(fmt.Sprintf("sid=%02x/ptsdts=%d/extra=%v/payload=%v/dai=%v", sid, h.PTSDTS, len(h.Extra) > 0, len(h.Payload) > 0, h.DataAligned())) && c.WantSample() && sid >= 0xe0 && h.PTSDTS == 3 && len(b) < 40 {
-				c.Sample(func() interface{} { return wit{mon.Hex(b), shape(&h), fmt.Sprintf("pts=%d dts=%d data starts at %d", h.PTS, h.DTS, hdrEnd)} })
+				c.Sample(func() interface{} {
+					return wit{mon.Hex(b), shape(&h), fmt.Sprintf("pts=%d dts=%d data starts at %d", h.PTS, h.DTS, hdrEnd)}
+				})
 			}
 		}
 	})
